@@ -6,6 +6,8 @@ CONSTANTS
   Input <- InStar
   PrefixMode = FALSE
   AdmitByCore = TRUE
+  CatchUp = "always"
+  AnyOrder = FALSE
   MaxSize = 40
 INVARIANT Bounded
 PROPERTY Terminates
